@@ -47,6 +47,9 @@ func ParseGlyf(src []byte, locaOffsets []uint32) (Glyf, error) {
 		if start == end {
 			continue
 		}
+		if start > end || int(end) > len(src) {
+			return nil, fmt.Errorf("invalid glyph location [%d:%d] for 'glyf' table of length %d", start, end, len(src))
+		}
 		out[i], _, err = ParseGlyph(src[start:end])
 		if err != nil {
 			return nil, err
